@@ -15,22 +15,24 @@ import (
 type SubmitKind int
 
 const (
-	SubAccept      SubmitKind = iota // all blobs accepted
-	SubPrefix                        // only the first N accepted (fewer ids returned)
-	SubTimeout                       // ErrTxTimedOut
-	SubInMempool                     // ErrTxAlreadyInMempool
-	SubTooBig                        // ErrBlobSizeOverLimit
-	SubDeadline                      // ErrContextDeadline
-	SubGeneric                       // generic error
-	SubAckLost                       // blobs stored, error returned
-	SubBlock                         // block until the caller's context is cancelled
-	SubSeqErr                        // ErrTxIncorrectAccountSequence
-	SubCrashBefore                   // the submitting node dies before the DA layer sees the blobs
-	SubCrashAfter                    // the DA layer stores the blobs, the submitting node dies before the answer
+	SubAccept          SubmitKind = iota // all blobs accepted
+	SubPrefix                            // only the first N accepted (fewer ids returned)
+	SubTimeout                           // ErrTxTimedOut
+	SubInMempool                         // ErrTxAlreadyInMempool
+	SubTooBig                            // ErrBlobSizeOverLimit
+	SubDeadline                          // ErrContextDeadline
+	SubGeneric                           // generic error
+	SubAckLost                           // blobs stored, error returned
+	SubBlock                             // block until the caller's context is cancelled
+	SubSeqErr                            // ErrTxIncorrectAccountSequence
+	SubCrashBefore                       // the submitting node dies before the DA layer sees the blobs
+	SubCrashAfter                        // the DA layer stores the blobs, the submitting node dies before the answer
+	SubCanceled                          // the DA side reports a bare context.Canceled although the caller's context is live
+	SubCanceledWrapped                   // the same, wrapped
 	numSubmitKinds
 )
 
-var submitKindNames = []string{"accept", "prefix", "timeout", "in-mempool", "too-big", "deadline", "generic", "ack-lost", "block", "seq-err", "crash-before", "crash-after"}
+var submitKindNames = []string{"accept", "prefix", "timeout", "in-mempool", "too-big", "deadline", "generic", "ack-lost", "block", "seq-err", "crash-before", "crash-after", "da-side-cancelled", "da-side-cancelled-wrapped"}
 
 func (k SubmitKind) String() string { return submitKindNames[k] }
 
@@ -76,7 +78,9 @@ func (d *SimDA) InFlight() int {
 
 // readErr builds the error of a failing read; it may block until ctx ends (flavor 4; d.mu must not be held).
 func readErr(ctx context.Context, flavor int, what string) error {
-	switch flavor % 5 {
+	switch flavor % 6 {
+	case 5:
+		return fmt.Errorf("sim: rpc error: %s: %w", what, context.Canceled)
 	case 1:
 		return fmt.Errorf("sim: rpc error: %s: %w", what, context.DeadlineExceeded)
 	case 2:
@@ -394,6 +398,10 @@ func (d *SimDA) submit(ctx context.Context, by string, epoch int, blobs [][]byte
 		err = coreda.ErrContextDeadline
 	case SubSeqErr:
 		err = coreda.ErrTxIncorrectAccountSequence
+	case SubCanceled:
+		err = context.Canceled
+	case SubCanceledWrapped:
+		err = fmt.Errorf("sim: upstream request aborted: %w", context.Canceled)
 	case SubGeneric:
 		err = errors.New("sim: DA node unavailable")
 	case SubAckLost:
@@ -460,10 +468,10 @@ func (d *SimDA) getIDs(ctx context.Context, by string, epoch int, height uint64)
 		}
 		fallthrough
 	case ReadListErr:
-		call.Outcome = fmt.Sprintf("list-err(flavor %d)", out.Flavor%5)
-		d.Stats[fmt.Sprintf("read:err-flavor-%d", out.Flavor%5)]++
+		call.Outcome = fmt.Sprintf("list-err(flavor %d)", out.Flavor%6)
+		d.Stats[fmt.Sprintf("read:err-flavor-%d", out.Flavor%6)]++
 		d.logCall(call)
-		if out.Flavor%5 == 4 {
+		if out.Flavor%6 == 4 {
 			d.inflight++
 			d.mu.Unlock()
 			err := readErr(ctx, out.Flavor, "failed to list blobs")
@@ -518,11 +526,11 @@ func (d *SimDA) get(ctx context.Context, by string, epoch int, ids [][]byte) ([]
 			if fc, ok := d.failChunk[h]; ok && fc == idx {
 				delete(d.failChunk, h)
 				fl := d.failFlavor[h]
-				call.Outcome = fmt.Sprintf("chunk-err(%d, flavor %d)", idx, fl%5)
+				call.Outcome = fmt.Sprintf("chunk-err(%d, flavor %d)", idx, fl%6)
 				d.Stats["read:chunk-err-fired"]++
-				d.Stats[fmt.Sprintf("read:err-flavor-%d", fl%5)]++
+				d.Stats[fmt.Sprintf("read:err-flavor-%d", fl%6)]++
 				d.logCall(call)
-				if fl%5 == 4 {
+				if fl%6 == 4 {
 					d.inflight++
 					d.mu.Unlock()
 					err := readErr(ctx, fl, "failed to fetch blobs")
